@@ -350,16 +350,47 @@ impl<'a> JsStr<'a> {
                 return f64::from(value);
             }
 
-            // Slow path
-            let mut value: f64 = 0.0;
+            // Slow path: keep the leading 64 significant bits plus a sticky bit, so that the single
+            // `u64 -> f64` conversion rounds the exact value exactly once.
+            let bits_per_digit = base.trailing_zeros();
+            let mut mantissa: u64 = 0;
+            let mut dropped: i32 = 0;
+            let mut sticky = false;
             for c in s {
-                if let Some(digit) = char::from(c).to_digit(base) {
-                    value = value.mul_add(f64::from(base), f64::from(digit));
-                } else {
+                let Some(digit) = char::from(c).to_digit(base) else {
                     return f64::NAN;
+                };
+                for shift in (0..bits_per_digit).rev() {
+                    let bit = u64::from((digit >> shift) & 1);
+                    if mantissa >> 63 == 0 {
+                        mantissa = (mantissa << 1) | bit;
+                    } else {
+                        dropped = dropped.saturating_add(1);
+                        sticky |= bit != 0;
+                    }
                 }
             }
+            if sticky {
+                mantissa |= 1;
+            }
+            if dropped > 1100 {
+                return f64::INFINITY;
+            }
+            let mut value = mantissa as f64;
+            while dropped > 0 {
+                let step = dropped.min(1000);
+                value *= 2f64.powi(step);
+                dropped -= step;
+            }
             return value;
+        }
+
+        // `fast_float2` also accepts "inf", "infinity" and "nan" in any letter case, with a sign;
+        // a `StrDecimalLiteral` other than the exact spellings handled above starts, after an optional
+        // sign, with a decimal digit or a dot.
+        let unsigned = string.strip_prefix(['+', '-']).unwrap_or(string);
+        if !unsigned.starts_with(|c: char| c.is_ascii_digit() || c == '.') {
+            return f64::NAN;
         }
 
         fast_float2::parse(string).unwrap_or(f64::NAN)
